@@ -77,6 +77,11 @@ CHECKS = {
     note='Trusted: z3, transliterator, differentiation of the encoding, the Bessel recurrences behind the atom rules. Truncation error of the series beyond their order, scipy spherical_jn and the integrator are outside.',
     technique='Cython source transliteration + symbolic execution with special-function atoms and derivation rules + z3 (minors of the span condition)',
     design='2/C04'),
+ 'C01': dict(
+    text='Bounded SMT validity checking of every algebraic link of the shooting pipeline for a uniform incompressible solid sphere: the polynomial regular solutions satisfy the real SolidStaticIncompressible.diffeq; pushed through the real boundary-vector construction, cf_apply_surface_bc (zgesv contract), cf_collapse_layer_solution and find_love_cf they give exactly the Kelvin k, h, l (rational identities in R, rho, mu, G); dynamic -> static at zero frequency and compressible -> incompressible as K -> infinity are identities/limits of the right-hand sides; the starting families span regular solutions (C04 obligations).',
+    note='Trusted: z3, transliterator, zgesv contract stub; the sympy-built polynomial basis is untrusted (re-checked by the solver). Convergence of the CyRK integrators within tolerance is NOT decided (no solver-based handle on numerical integration); stated as outside.',
+    technique='symbolic execution of the transliterated pipeline + z3 rational-function identities against the closed form',
+    design='2/C01'),
 }
 NOT_YET = {}
 ALL = ['C%02d' % i for i in range(1, 21)]
